@@ -14,15 +14,12 @@ package main
 import (
 	"fmt"
 	"os"
-	"runtime/pprof"
 	"sort"
 	"strconv"
 	"strings"
 	"sync"
 	"sync/atomic"
 	"time"
-
-	"github.com/XiaoMi/Gaea/parser/ast"
 
 	"verif/engine/enum"
 	"verif/engine/ev"
@@ -358,7 +355,7 @@ func kAtoms() []Atom {
 }
 
 // level1 = every single atom over the whole universe (plain), then the NOT-wrapped ones.
-func level1(u *universe) (plain, negated, bare []*Cond) {
+func level1(u *universe, narrow bool) (plain, negated, bare []*Cond) {
 	n := len(u.vals)
 	var cmp []*Cond
 	for _, op := range cmpOps {
@@ -399,8 +396,11 @@ func level1(u *universe) (plain, negated, bare []*Cond) {
 		for i := 0; i < n; i++ {
 			for j := 0; j < n; j++ {
 				c := atomC(u.between(i, j, not))
-				btw = append(btw, c)
-				if d := i - j; d >= -1 && d <= 1 {
+				near := i-j >= -1 && i-j <= 1
+				if near || !narrow {
+					btw = append(btw, c)
+				}
+				if near {
 					btwNear = append(btwNear, c)
 				}
 			}
@@ -888,6 +888,15 @@ func (w *worker) report(r *ev.Run, mode, form string, c *Cond, o *outcome) {
 			f["kind"] = "compound_" + f["kind"]
 		}
 		sql := renderSQL(form, w.l.Key(), min)
+		if debugSigs != nil {
+			key := fmt.Sprintf("rule=%s op=%s not=%s litclass=%s missing=%s kind=%s", f["rule"], f["op"], f["not"], f["litclass"], f["missing"], f["kind"])
+			debugMu.Lock()
+			debugSigs[key]++
+			if _, ok := debugEx[key]; !ok {
+				debugEx[key] = fmt.Sprintf("%s: %s route=%v missing=%d", w.l, sql, mo.route, m)
+			}
+			debugMu.Unlock()
+		}
 		r.Violation(ev.Witness{
 			Summary:  fmt.Sprintf("%s: %s  → route %v misses table %d which holds the matching row %s", w.l, sql, mo.route, m, w.rowText(mo.needRow[m])),
 			Features: f,
@@ -925,6 +934,13 @@ func (w *worker) minimise(form string, c *Cond, o *outcome) (*Cond, *outcome) {
 }
 
 // ---------------------------------------------------------------- driver
+
+// C01_DEBUG=1 prints every distinct violation signature with a count and an example.
+var (
+	debugSigs map[string]int
+	debugEx   = map[string]string{}
+	debugMu   sync.Mutex
+)
 
 type task struct {
 	l      planrig.Layout
@@ -971,17 +987,17 @@ func layouts(r *ev.Run) (all, deep []planrig.Layout) {
 
 func conds(u *universe, gen string) []*Cond {
 	switch gen {
-	case "l1":
-		p, _, _ := level1(u)
+	case "l1", "l1narrow":
+		p, _, _ := level1(u, gen == "l1narrow")
 		return p
 	case "l1not":
-		_, n, _ := level1(u)
+		_, n, _ := level1(u, false)
 		return n
 	case "l1bare":
-		_, _, b := level1(u)
+		_, _, b := level1(u, false)
 		return b
-	case "l2n0", "l2n1", "l2n2", "l2n3":
-		return level2(reduced(u, false), int(gen[3]-'0'))
+	case "l2n0", "l2n1", "l2n2", "l2n3", "l2s0", "l2s1", "l2s2", "l2s3":
+		return level2(reduced(u, gen[2] == 's'), int(gen[3]-'0'))
 	case "l3":
 		return level3(reduced(u, true))
 	}
@@ -1042,12 +1058,6 @@ func runTask(r *ev.Run, t task, st *stats, routes map[string]struct{}) {
 
 func main() {
 	gx.Quiet()
-	if pf := os.Getenv("C01_PPROF"); pf != "" {
-		f, _ := os.Create(pf)
-		pprof.StartCPUProfile(f)
-		defer pprof.StopCPUProfile()
-		go func() { time.Sleep(40 * time.Second); pprof.StopCPUProfile(); os.Exit(3) }()
-	}
 	time.Local = time.UTC // unix-timestamp keys of the calendar rules are interpreted in the local zone
 	r := ev.Start("C01", "exploration")
 	r.Assume("reference = three-valued evaluation (planrig.Eval) of the WHERE/ON conditions on the AST produced by Gaea's own parser; column and literal types are equal (int/int, string/string), strings are lower-case ASCII or 'YYYY-MM-DD[ hh:mm:ss]'")
@@ -1067,18 +1077,39 @@ func main() {
 		r.Finish()
 	}
 
+	if os.Getenv("C01_DEBUG") != "" {
+		debugSigs = map[string]int{}
+	}
 	all, deep := layouts(r)
 	var tasks []task
+	quick := r.Quick()
+	isDeep := map[string]bool{}
+	for _, l := range deep {
+		isDeep[l.String()] = true
+	}
 	sampleLeft := map[string]int{}
 	for _, l := range all {
-		for _, mode := range modesOf(l) {
-			for _, form := range forms {
-				s := false
-				if sampleLeft[l.Rule+form] == 0 && (l.Rule == "range" && form == "select" || l.Rule == "date_month" && form == "join_on" || l.Rule == "mycat_long" && form == "delete" || l.Rule == "hash" && form == "update") && l.Slices == 2 && l.TablesPerSlice == 2 {
+		hashLike := !l.IsDate() && l.Rule != "range" // only = and IN prune: BETWEEN far off the diagonal adds nothing
+		for mi, mode := range modesOf(l) {
+			second := mi == 1 // unix keys of calendar rules, string keys of hash-like rules
+			if quick && second && l.IsDate() && !isDeep[l.String()] {
+				continue
+			}
+			fs := forms
+			if quick && second && hashLike {
+				fs = []string{"select", "join_on"}
+			}
+			g1 := "l1"
+			if quick && hashLike {
+				g1 = "l1narrow"
+			}
+			for _, form := range fs {
+				smp := false
+				if sampleLeft[l.Rule+form] == 0 && mi == 0 && (l.Rule == "range" && form == "select" || l.Rule == "date_month" && form == "join_on" || l.Rule == "mycat_long" && form == "delete" || l.Rule == "hash" && form == "update") && l.Slices == 2 && l.TablesPerSlice == 2 {
 					sampleLeft[l.Rule+form] = 1
-					s = true
+					smp = true
 				}
-				tasks = append(tasks, task{l: l, mode: mode, form: form, gen: "l1", sample: s})
+				tasks = append(tasks, task{l: l, mode: mode, form: form, gen: g1, sample: smp})
 			}
 			for _, form := range []string{"select", "update", "join_on"} {
 				tasks = append(tasks, task{l: l, mode: mode, form: form, gen: "l1not"})
@@ -1087,17 +1118,28 @@ func main() {
 		}
 	}
 	for _, l := range deep {
-		for _, mode := range modesOf(l) {
+		hashLike := !l.IsDate() && l.Rule != "range"
+		for mi, mode := range modesOf(l) {
+			if quick && l.IsDate() { // string keys on three layouts, unix keys on the fourth
+				wantUnix := l.Slices == 3 && len(l.Params) > 0
+				if (mi == 1) != wantUnix {
+					continue
+				}
+			}
+			fam := "l2n"
+			if quick && hashLike {
+				fam = "l2s"
+			}
 			for _, form := range forms[:5] {
-				gens := []string{"l2n0"}
-				if form == "select" || r.Thorough() {
-					gens = []string{"l2n0", "l2n1", "l2n2", "l2n3"}
+				gens := []string{fam + "0"}
+				if form == "select" || !quick {
+					gens = []string{fam + "0", fam + "1", fam + "2", fam + "3"}
 				}
 				for _, g := range gens {
 					tasks = append(tasks, task{l: l, mode: mode, form: form, gen: g, sample: g == "l2n0" && form == "select" && l.Rule == "date_year" && mode == "str" && len(l.Params) == 0 && l.Slices == 2})
 				}
 			}
-			if r.Thorough() {
+			if !quick {
 				tasks = append(tasks, task{l: l, mode: mode, form: "select", gen: "l3"})
 				tasks = append(tasks, task{l: l, mode: mode, form: "join_where", gen: "l3"})
 			}
@@ -1139,6 +1181,16 @@ func main() {
 			ev.Fatalf("vacuous: layout %v produced only %d distinct routes", l, perLayout[l.String()])
 		}
 	}
+	if debugSigs != nil {
+		var ks []string
+		for k := range debugSigs {
+			ks = append(ks, k)
+		}
+		sort.Strings(ks)
+		for _, k := range ks {
+			fmt.Printf("SIG %6d  %s\n        e.g. %s\n", debugSigs[k], k, debugEx[k])
+		}
+	}
 	r.Set("evaluations", total.evals)
 	r.Set("distinct_nontrivial", total.nontrivial)
 	r.Set("rejected_statements", total.rejected)
@@ -1154,5 +1206,3 @@ func main() {
 	r.Set("rule", "every case = (layout, key type mode, statement form, condition tree), each distinct by construction (atoms are de-duplicated by text); enumerated simplest-first: single atoms, NOT atoms, two-atom trees. A case counts as non-trivial when the plan really pruned (route is a strict subset of the configured tables) AND at least one universe row satisfies the condition, i.e. the inclusion oracle was exercised against a pruned route")
 	r.Finish()
 }
-
-var _ ast.Node
